@@ -1,9 +1,12 @@
 import BadgerModel.Driver.Loop
-/-! `bmd_conc <engine>`: line-protocol driver (see CONVENTIONS.md). -/
+import BadgerModel.Driver.Sys
+/-! `bmd_conc <engine>`: line-protocol driver (see CONVENTIONS.md). Engines: `lock` (C35),
+    `pipeline` (C38), `crypto` (C23). -/
 open Badger.Driver
 
 def main (args : List String) : IO UInt32 := do
   let stdin ← IO.getStdin
   let stdout ← IO.getStdout
   match args with
-  | _ => IO.eprintln "usage: bmd_conc <engine>"; return 2
+  | ["lock"] => statefulLoop stdin stdout lockStep ({} : LockDrv); return 0
+  | _ => IO.eprintln "usage: bmd_conc <lock|pipeline|crypto>"; return 2
